@@ -146,4 +146,5 @@ def run(ctx):
             ctx.violation('C13|%s|%s|%s' % (cfg, law, '+'.join(sorted(set(rel.split(','))))),
                           'Gaussian copula on a %s-column table (%s) with %s marginals violates %s %s' % (n, rel, cfg, law, o.get('trace', '')),
                           dict(o, rerun=['harness.props.C13._observe', list(jobs[i])]))
+    ctx.traces += len(obs)          # observation tables / samples of the real code judged by TLC
     ctx.exhaustive = False
